@@ -29,6 +29,42 @@ pub fn gen_history(r: &mut Rng, k: usize) -> (Vec<Revision>, AObjects) {
     (revs, latest)
 }
 
+/// "the result can be loaded and updated again" for files of ANOTHER producer: the history file is opened as an
+/// IncrementalDocument, one object is added, the update is saved and reloaded — every object of the history must still be
+/// there (newest wins), the new object under the id `add_object` handed out, and that id must not have been in use.
+fn update_again(c: &mut Ctx, r: &mut Rng, bytes: &[u8], latest: &AObjects, extra: &Dictionary, version: &str, helper_from: u32) {
+    let low: Vec<u32> = crate::refwriter::LOW_HELPER_IDS.with(|l| l.borrow().clone());
+    let Ok(Ok(mut inc)) = guard(|| IncrementalDocument::load_from(bytes)) else { c.count("update_again.load_failed"); return };
+    let in_use: std::collections::BTreeSet<u32> = inc.get_prev_documents().objects.keys().map(|k| k.0).collect();
+    // (no real numbers: they come back in normal form, which `compare_abstract` does not apply to the abstract document)
+    let o = { let mut d = Dictionary::new(); d.set("Added", Object::string_literal(r.bytes(6))); d.set("N", Object::Integer(r.below(1000) as i64)); d.set("To", Object::Reference(*r.pick(&latest.keys().cloned().collect::<Vec<_>>()))); Object::Dictionary(d) };
+    let id = inc.new_document.add_object(o.clone());
+    if in_use.contains(&id.0) || latest.keys().any(|k| k.0 == id.0) {
+        c.oracle_fail("incr:id-collision", &format!("add_object on the loaded history handed out {:?}, a number the file already uses (max_id = {})", id, inc.get_prev_documents().max_id), json!({"file": hex(bytes)}));
+        return;
+    }
+    let kind = if matches!(inc.get_prev_documents().reference_table.cross_reference_type, XrefType::CrossReferenceStream) { "stream" } else { "table" };
+    let nd = &inc.new_document;
+    let req = format!("save_incr {} {} {} {} {} {} {}", kind, nd.max_id, hex_tok(nd.version.as_bytes()), hex_tok(&nd.binary_mark), hex_tok(bytes),
+        show_obj(&Object::Dictionary(nd.trailer.clone())), show_objects(nd.objects.iter()));
+    if bytes.windows(5).position(|w| w == b"%PDF-").unwrap_or(0) > 0 { c.count("update_again.bytes_before_header"); }
+    let mut out = Vec::new();
+    match guard(|| inc.save_to(&mut out)) {
+        Ok(Ok(())) => {
+            c.corr(req, format!("ok {} {} {}", hex_tok(&out), inc.new_document.max_id, show_obj(&Object::Dictionary(inc.new_document.trailer.clone()))));
+            let mut want = latest.clone(); want.insert(id, AObj { obj: o, stream: None });
+            crate::refwriter::LOW_HELPER_IDS.with(|l| *l.borrow_mut() = low);
+            match guard(|| Document::load_mem(&out)) {
+                Ok(Ok(d)) => { if let Some((sig, diff)) = compare_abstract(&d, &want, extra, version, helper_from.min(id.0 + 1).max(helper_from)) { if sig != "extra-object" || !diff.contains(&format!("{:?}", id)) { c.oracle_fail(&format!("incr-on-foreign:{}", sig), &format!("after one more incremental update of the history file: {}", diff), json!({"file": hex(&out)})); } } c.count("update_again.ok"); }
+                Ok(Err(e)) => c.oracle_fail("incr-on-foreign:reload", &format!("the updated history file does not load: {:?}", e), json!({"file": hex(&out)})),
+                Err((site, msg)) => c.oracle_fail(&format!("panic@{}", site), &msg, json!({})),
+            }
+        }
+        Ok(Err(_)) => c.count("update_again.save_error"),
+        Err((site, msg)) => c.oracle_fail(&format!("panic@{}", site), &msg, json!({})),
+    }
+}
+
 pub fn run(c: &mut Ctx) {
     c.rule = "histories of 1..k update revisions over random base documents: (A) written by the reference writer in every cross-reference style \
 (tables, streams, object streams, compressed or not), oracle = latest-wins abstract document; (B) replayed through IncrementalDocument \
@@ -50,6 +86,7 @@ by new; model bytes = real bytes (`save_incr`), model load = real load. Non-triv
         let w = write_file(&mut r, &mut counters, &style, version, &revs);
         c.count(&format!("refhist.revisions_{}", k + 1));
         check_file(c, &w.bytes, &latest, &revs[0].trailer_extra, version, helper_from, i < 2, &style);
+        if i % 2 == 0 && !style.raw_cr_in_strings { update_again(c, &mut r, &w.bytes, &latest, &revs[0].trailer_extra, version, helper_from); }
     }
     // object streams in the updates only in ONE revision (base plain): allowed domain for "updated objects inside object streams"
     for i in 0..c.n(200, 3000) {
@@ -63,6 +100,7 @@ by new; model bytes = real bytes (`save_incr`), model load = real load. Non-triv
         let w = write_file_with(&mut r, &mut counters, &style, version, &revs, &|ri| ri == which);
         c.count(if which == 0 { "refhist_objstm.in_base" } else { "refhist_objstm.in_update" });
         check_file(c, &w.bytes, &latest, &revs[0].trailer_extra, version, helper_from, false, &style);
+        if !style.raw_cr_in_strings { update_again(c, &mut r, &w.bytes, &latest, &revs[0].trailer_extra, version, helper_from); }
     }
     // witness F-C07-a: the same object in object streams of two revisions
     if let Some(mut r) = c.case("witness", 0) {
@@ -89,6 +127,25 @@ by new; model bytes = real bytes (`save_incr`), model load = real load. Non-triv
         }
         if found { c.witness("F-C07-a", reproduced, "object 2 stored in object streams of two revisions: the member of the older container is loaded"); }
         else { c.notes.push("F-C07-a witness could not be constructed".into()); }
+    }
+    // witness of the repaired finding F-C07-b: an incremental update of a file with bytes in front of the header
+    if c.only.is_none() {
+        let mut base = Document::with_version("1.5");
+        let id1 = base.add_object(Object::Dictionary({ let mut d = Dictionary::new(); d.set("Type", Object::Name(b"Catalog".to_vec())); d }));
+        base.trailer.set("Root", Object::Reference(id1));
+        let mut reproduced = false; let mut what = String::new();
+        for stream in [false, true] {
+            base.reference_table.cross_reference_type = if stream { XrefType::CrossReferenceStream } else { XrefType::CrossReferenceTable };
+            let mut saved = Vec::new(); let mut b2 = base.clone();
+            if b2.save_to(&mut saved).is_err() { continue; }
+            let mut f = b"%!PS-Adobe\n".to_vec(); f.extend_from_slice(&saved);
+            let Ok(mut inc) = IncrementalDocument::load_from(&f[..]) else { reproduced = true; what = "base with bytes before the header does not load".into(); continue };
+            let nid = inc.new_document.add_object(Object::Integer(42));
+            let mut out = Vec::new();
+            if inc.save_to(&mut out).is_err() { continue; }
+            match Document::load_mem(&out) { Ok(d) if d.objects.get(&nid) == Some(&Object::Integer(42)) && d.objects.contains_key(&id1) => {}, Ok(_) => { reproduced = true; what = "objects missing after the update".into(); } Err(e) => { reproduced = true; what = format!("{:?}", e); } }
+        }
+        c.witness("F-C07-b", reproduced, &format!("incremental update of a file with bytes before %PDF-: {}", if reproduced { what } else { "loads".into() }));
     }
     // ---- (B) IncrementalDocument replay
     for i in 0..c.n(200, 3000) {
